@@ -318,13 +318,30 @@ fn binaries(f: Fmt, shape: Shape, to: Fmt, d: usize, expect_ok: bool, acc: &mut 
     let sc = Scratch::new();
     let name = format!("deep.{}", f.name());
     sc.file(&name, &input);
+    sc.file("deep_noext", &input);
     for (bin, bname) in [(procmon::release_bin(), "release"), (procmon::debug_bin(), "debug")] {
-        for via_stdin in [false, true] {
+        for variant in 0..4 {
+            // 0: file by extension, 1: stdin with -f, 2: file without extension (detection), 3: stdin without -f (detection)
+            let via_stdin = variant % 2 == 1;
+            let detect = variant >= 2;
+            if detect {
+                // the detected verdict is predicted separately: detection may pick another format or none
+                let d = run_mode(&input, &if via_stdin { Mode::Reader(Sched::All) } else { Mode::Slice }, None, to);
+                if d.verdict.is_ok() != expect_ok {
+                    continue;
+                }
+                acc.count("binary_runs_with_detection");
+            }
             acc.evals += 1;
             acc.count(&format!("binary_runs_{bname}"));
-            let argv: Vec<String> = if via_stdin { vec!["-f".into(), f.name().into(), "-t".into(), to.name().into()] } else { vec!["-t".into(), to.name().into(), name.clone()] };
+            let argv: Vec<String> = match variant {
+                0 => vec!["-t".into(), to.name().into(), name.clone()],
+                1 => vec!["-f".into(), f.name().into(), "-t".into(), to.name().into()],
+                2 => vec!["-t".into(), to.name().into(), "deep_noext".into()],
+                _ => vec!["-t".into(), to.name().into()],
+            };
             let out = procmon::run(Run { bin: &bin, argv, cwd: sc.path(), stdin: if via_stdin { StdinKind::Bytes(input.clone()) } else { StdinKind::Null }, stdout: StdoutKind::File, wall_secs: 300, cpu_secs: 200 });
-            let case = || json!({"part": "binary", "binary": bname, "format": f.name(), "shape": shape.name(), "depth": d, "to": to.name(), "stdin": via_stdin});
+            let case = || json!({"part": "binary", "binary": bname, "format": f.name(), "shape": shape.name(), "depth": d, "to": to.name(), "stdin": via_stdin, "detect": detect});
             match &out.status {
                 Status::Timeout | Status::SpawnError(_) => acc.inconclusive += 1,
                 Status::Signal(s) => acc.violation(Violation { sig: format!("{bname} binary died from a signal at a nesting depth ({})", f.name()), case: case(), observed: format!("killed by signal {s} at depth {d}; stderr [{}]", preview(&out.stderr, 200)), expected: "exit 0 or 1".into() }),
@@ -397,9 +414,9 @@ pub fn run(ctx: &Ctx) -> i32 {
         }
     }
     size_hook(&mut acc, ctx.seed, ctx.size(20000, 400000));
-    let rule = format!("{} (source format, nesting shape, target) combinations: shapes arrays / maps / alternating / 2 random mixtures (+ key-position nesting for MessagePack) x 4 targets; depths: a +-6 window around each format's limit (MessagePack 1024, JSON 128, YAML 128, TOML 80; YAML also in block style), 1000..1025, 10^4, 10^5{} ; at every depth slice vs reader(all) vs reader(fixed 7), explicit and detected; the debug and release binaries (default stack, file and stdin) at the limit, one beyond and far beyond; MessagePack size calculator vs the harness decoder on generated, padded and truncated values; distinct non-trivial = distinct combinations", work.len(), if thorough { ", 10^6 (3*10^4 for YAML)" } else { "" });
+    let rule = format!("{} (source format, nesting shape, target) combinations: shapes arrays / maps / alternating / 2 random mixtures (+ key-position nesting for MessagePack) x 4 targets; depths: a +-6 window around each format's limit (MessagePack 1024, JSON 128, YAML 128, TOML 80; YAML also in block style), 1000..1025, 10^4, 10^5{} ; at every depth slice vs reader(all) vs reader(fixed 7), explicit and detected; the debug and release binaries (default stack; file and stdin, source format given or detected) at the limit, one beyond and far beyond; MessagePack size calculator vs the harness decoder on generated, padded and truncated values; distinct non-trivial = distinct combinations", work.len(), if thorough { ", 10^6 (3*10^4 for YAML)" } else { "" });
     ev::finish(
-        Finish { ctx, level: "exploration", rule, assumptions: vec!["YAML depths are capped (parsing is quadratic in depth)".into(), "targets that refuse the document for another reason (TOML with an array root) are left out of the limit comparison".into()], extra, exhaustive: false, min_distinct: 40, must_reach: vec![("binary_status_matches_library".into(), 100), ("binary_runs_debug".into(), 50), ("size_hook_cases".into(), 1000), ("inproc_msgpack".into(), 100)] },
+        Finish { ctx, level: "exploration", rule, assumptions: vec!["YAML depths are capped (parsing is quadratic in depth)".into(), "targets that refuse the document for another reason (TOML with an array root) are left out of the limit comparison".into()], extra, exhaustive: false, min_distinct: 40, must_reach: vec![("binary_status_matches_library".into(), 100), ("binary_runs_debug".into(), 50), ("binary_runs_with_detection".into(), 50), ("size_hook_cases".into(), 1000), ("inproc_msgpack".into(), 100)] },
         acc,
     )
 }
